@@ -1567,6 +1567,23 @@ mod tests {
     }
 
     #[test]
+    fn wide_links_follow_duplicated_shared_root() {
+        // same graph as duplicate_shared_root_subgraph: after isolation the 32-bit
+        // link of the root points at the copy and the 16-bit link keeps the original
+        let ids = make_ids::<3>();
+        let sizes = [10; 3];
+        let mut graph = TestGraphBuilder::new(ids, sizes)
+            .add_link(ids[0], ids[1], OffsetLen::Offset16)
+            .add_link(ids[0], ids[2], OffsetLen::Offset32)
+            .add_link(ids[1], ids[2], OffsetLen::Offset16)
+            .build();
+        graph.assign_spaces_hb();
+        let copy = *graph.objects.keys().find(|id| !ids.contains(id)).unwrap();
+        assert_eq!(graph.objects[&ids[0]].offsets[1].object, copy);
+        assert_eq!(graph.objects[&ids[1]].offsets[0].object, ids[2]);
+    }
+
+    #[test]
     fn orphans_left_by_isolation_are_dropped() {
         // 1 and 2 are both roots of the 32-bit space and 2 is also a child of 1:
         // isolating the space duplicates 2 and re-points every link to it, leaving
